@@ -82,6 +82,30 @@ func vfC20Run(t *testing.T, c *vfc20.Case) *vfc20.Run {
 			tg.BadRestore[string(vfutil.UnHex(b))] = true
 		}
 		res.Snapshot(tg, c, res.Before)
+		if c.Cut > 0 {
+			// the first attempt: the first Cut entries, then the worker's input ends (the run died / was cancelled there)
+			first := c.Prepare()
+			n := c.Cut
+			if n > len(first.Bins) {
+				n = len(first.Bins)
+			}
+			ro0 := vfC20Output(c, tg, 1)
+			p0 := make(chan *rdb.BinEntry, n+1)
+			for _, e := range first.Bins[:n] {
+				p0 <- e
+			}
+			close(p0)
+			if c.Mode == "bisync" {
+				ro0.rdbReplayBisync(context.Background(), "vfrun", 5000, p0)
+			} else {
+				ro0.rdbReplay(context.Background(), p0)
+			}
+			synctest.Wait()
+			tg.CloseAll()
+			res.Orig = res.Before
+			res.Before = map[vfc20.DK]*vfdoubles.Val{}
+			res.Snapshot(tg, c, res.Before) // what the restart finds
+		}
 		nSeed := tg.LogLen()
 		ro := vfC20Output(c, tg, 1)
 		if c.Window != "" {
@@ -192,6 +216,16 @@ func TestVerifC20Syncer(t *testing.T) {
 			s.Violate("generator-rdb-rejected", r.LoadErr.Error(), c.Replay())
 			return
 		}
+		if c.Cut > 0 {
+			found := r.Before
+			r.Before = r.Orig // the model's answer lines speak about the original target
+			vfc20.Emit(s, idx, c, r)
+			idx++
+			r.Before = found
+			vfc20.CheckRerun(s, c, r, r.Orig)
+			vfc20.Stats(s, c, r, src)
+			return
+		}
 		vfc20.Emit(s, idx, c, r)
 		idx++
 		vfc20.Check(s, c, r)
@@ -268,6 +302,9 @@ func TestVerifC20Syncer(t *testing.T) {
 		}
 		for _, c := range vfc20.ExhaustiveBig(mode) {
 			run(c, "exhaustive-big")
+		}
+		for _, c := range vfc20.ExhaustiveRerun(mode) {
+			run(c, "exhaustive-rerun")
 		}
 	}
 	// a client write between the EXISTS probe and the unit's EXEC (bidirectional, RESTORE path)
